@@ -15,5 +15,5 @@ for p in ["go.sum","http/go.sum","chi/go.sum","gin/go.sum","echo/go.sum","fiber/
 open("harness/go.sum","w").write("\n".join(sorted(sums))+"\n")
 PY
 mkdir -p harness/bin evidence replays work
-(cd harness && go build -tags verif -overlay overlay.json -o bin/harness .)
+(cd harness && go build -tags verif -overlay overlay.json -o bin/harness . && go build -race -tags verif -overlay overlay.json -o bin/harness-race .)
 echo setup ok
